@@ -344,6 +344,34 @@ def file_race_store(sl):
     observe("the listed race carries the same results", metrics.GlobalStats(listed[0].results).as_flat_list() == res.as_flat_list())
 
 
+SIZES = [1000, 65535, 65536, 65537, 99999, 100000, 100001, 131073, 250001]
+
+
+def percentiles_large(sl):
+    """percentiles over LARGE sample sets (sizes around powers of two and 10^5), concrete values executed natively: whatever the size,
+    p100 is the maximum, p0 the minimum and p50 the median of ALL recorded normal samples (no thinning, capping or windowing)"""
+    import statistics
+
+    n = sl["n"]
+    positions = [0, 1, 2, n // 2, n - 2, n - 1]
+    hi = positions[concrete(fresh_int("position_of_the_maximum", 0, len(positions) - 1))]
+    lo = [3, n - 3][concrete(fresh_int("position_of_the_minimum", 0, 1))]
+    if hi == lo:
+        return
+    vals = [10.0 + ((i * 7919) % 1009) / 100.0 for i in range(n)]
+    vals[hi], vals[lo] = 5000.0, 0.25
+    st = _store()
+    st.docs = [_doc("latency", "t1", "normal", v, True, "bulk") for v in vals]
+    pct = st.get_percentiles("latency", task="t1", sample_type=metrics.SampleType.Normal, percentiles=[0, 50, 100])
+    stats = st.get_stats("latency", task="t1", sample_type=metrics.SampleType.Normal)
+    core.trace("n", n)
+    core.note("n / positions", (n, hi, lo))
+    observe("p100 is the maximum of all samples", pct[100] == 5000.0)
+    observe("p0 is the minimum of all samples", pct[0] == 0.25)
+    observe("p50 is the median of all samples", abs(pct[50] - statistics.median(vals)) <= 1e-9)
+    observe("stats count / min / max over all samples", stats["count"] == n and stats["min"] == 0.25 and stats["max"] == 5000.0)
+
+
 def _documented_percentiles(n):
     """docs/summary_report.rst: percentiles shown depend on the number of samples (50 from 2, 90 from 10, 99 from 100, ...)"""
     out = []
@@ -411,6 +439,9 @@ HARNESSES = [
             assumptions=["runs on a real temporary directory with the real json module (finite family of values: %s)" % VALUES],
             bounds={"normal samples": "0..2 with values of the family", "global metrics": "one value of the family"},
             doc="race.json written and read back through FileRaceStore reproduces per-task and global metrics"),
+    Harness("percentiles_large", percentiles_large, "bounded-exhaustive", lambda tier: [{"n": n, "_w": 1 + n // 30000} for n in SIZES], reads=READS,
+            assumptions=["concrete values, executed natively (no symbolic values): sizes %s, extreme values at 6 positions each" % SIZES],
+            bounds={"sizes": SIZES}, doc="percentiles and stats over large sample sets use every sample"),
     Harness("results", results, "symbolic", _result_slices, reads=READS, stubs=STUBS, assumptions=ASSUME, real_valued=True,
             bounds={"samples per task": "warm-up/normal counts (0,1) (1,0) (1,1) (1,2) (2,3) (4,8) (1,9) (0,10) (3,11); thorough adds (5,99) (0,100)",
                     "values": "symbolic reals (strictly ordered when more than 3 per list)", "global metrics": "4 sums with symbolic values >= 0"},
